@@ -266,6 +266,13 @@ def run(ctx, idx):
             if s in body:
                 probs.append("`%s` runs a command inside the validation loop" % s.text())
             elif not cfg.dominates(head, s) or s not in after:
+                # skipped when a remembered state equals a freshly computed one (a validation cache with a validity key): whether
+                # the key covers everything the pre-pass depends on is not decided here; a bare `is None` / flag test is no key
+                keyed = [t for t in cfg.find("test") if s in cfg.reachable(t) and head in cfg.reachable(t) and isinstance(t.ast, ast.Compare) and len(t.ast.ops) == 1 and isinstance(t.ast.ops[0], (ast.Eq, ast.NotEq))
+                         and any(isinstance(x, ast.Attribute) and isinstance(x.value, ast.Name) and x.value.id == sn for x in [t.ast.left] + t.ast.comparators)
+                         and not any(isinstance(x, ast.Constant) for x in [t.ast.left] + t.ast.comparators)]
+                if keyed:
+                    raise AnalysisError("C12.b: Program.run skips the validation pre-pass when `%s` (a remembered state compared with the current one): cannot decide whether that state covers everything validation depends on" % K.src(keyed[0].ast)[:70])
                 probs.append("`%s` can run before the validation loop has finished" % s.text())
         # every argument cleaned: the clean call is on every path of the inner body guarded only by `name in inputs`
         ibody_first = [m for m, l in inner.succ if l == "loop"]
